@@ -102,9 +102,22 @@ example : HashSound false (fun _ _ => some false) (fun _ => none)
   rcases ha with rfl | rfl | rfl | rfl | rfl <;> rcases hb with rfl | rfl | rfl | rfl | rfl <;>
     first | rfl | (exfalso; revert e; simp [hashStr, litRepr]; try decide)
 
-/-! ## 3. `merge_field_sets` -/
+/-! ## 3. `merge_field_sets`
 
-/-- The full statement.  It is FALSE: see `mergeFieldSets_witness` / `mergeFieldSets_sound_false`. -/
+History: before the repair of generator.py:155 (`field_original == field.type → continue`), merging
+`{a: int}` with `{a: Optional[int]}` (in this order) gave `{a: int}`, so `{"a": null}` was lost — that was the
+old `mergeFieldSets_witness`.  With the repaired `mergeOne` both orders give `{a: Optional[int]}`
+(examples below) and **every value of every object of every input set is kept** (`mergeFieldSets_sound`).
+
+What is still not true is the *strict* statement about required fields: `{a: int}` then `{a: Optional[str]}`
+gives `{a: Union[Optional[str], int]}`, which is not a `DOptional` at the top (it is one after
+`optimize_type`), so the object `{}` of the second set is not *strictly* in the merge
+(`mergeFieldSets_witness`).  The full theorem therefore reads required fields laxly (`InhFieldsLax`: a field
+may be absent when its type is `Ty.optLike`, i.e. a `DOptional` or a `DUnion` with a `DOptional` member). -/
+
+/-- The full statement with the strict reading of required fields.
+    It is STILL FALSE after the repair (for another reason than before): see `mergeFieldSets_witness` /
+    `mergeFieldSets_sound_false`.  The true full statement is `mergeFieldSets_sound`. -/
 def mergeFieldSets_sound_Statement : Prop :=
   ∀ (acc : Accepts) (g : ModelLookup) (K : String → Prop) (c : LitCfg) (e : EqEnv)
     (sets : List Fields) (F fs : Fields) (kvs : List (String × Json)),
@@ -114,21 +127,29 @@ def mergeFieldSets_sound_Statement : Prop :=
 
 def eW : EqEnv := ⟨StrOracle.default, fun i => i, fun _ => none, 10⟩
 
-/-- Merging `{a: int}` with `{a: Optional[int]}` (in this order) gives `{a: int}`:
-    generator.py:155 `field_original == field.type → continue` keeps the non-optional type.
-    `{"a": null}` lies in the second set and not in the result. No hash string or union is involved. -/
+/-- NEW behaviour (repaired generator.py:155): `{a: int}` then `{a: Optional[int]}` gives
+    `{a: Optional[int]}` … -/
+example : mergeFieldSets ⟨15, 20⟩ eW [[("a", .int)], [("a", .opt .int)]] = .ok [("a", .opt .int)] := by rfl
+
+/-- … and so does the other order. -/
+example : mergeFieldSets ⟨15, 20⟩ eW [[("a", .opt .int)], [("a", .int)]] = .ok [("a", .opt .int)] := by rfl
+
+/-- Merging `{a: int}` with `{a: Optional[str]}` (in this order) gives `{a: Union[Optional[str], int]}`:
+    the incoming `DOptional` becomes a *member* of the union (generator.py:157-160), the field is not a
+    `DOptional`.  The object `{}` lies in the second set and not (strictly) in the result.
+    (`optimize_type` turns the field into `Optional[Union[int, str]]` afterwards.) -/
 theorem mergeFieldSets_witness (acc : Accepts) (g : ModelLookup) :
-    mergeFieldSets ⟨15, 20⟩ eW [[("a", .int)], [("a", .opt .int)]] = .ok [("a", .int)] ∧
-    InhFields acc g [("a", .opt .int)] [("a", .null)] ∧
-    ¬ InhFields acc g [("a", .int)] [("a", .null)] := by
-  refine ⟨rfl, ⟨?_, ?_, ?_⟩, ?_⟩
-  · intro kv hkv; simp at hkv; subst hkv; rfl
-  · intro kv hkv t ht; simp at hkv; subst hkv
-    simp [Fields.get?_cons] at ht; subst ht; exact Inh.optNull
+    mergeFieldSets ⟨15, 20⟩ eW [[("a", .int)], [("a", .opt .str)]] = .ok [("a", .union [.opt .str, .int])] ∧
+    InhFields acc g [("a", .opt .str)] [] ∧
+    ¬ InhFields acc g [("a", .union [.opt .str, .int])] [] := by
+  refine ⟨?_, ⟨by simp, by simp, ?_⟩, ?_⟩
+  · simp [mergeFieldSets, mergeFieldSets.go, mergeStep, mergeOne, Fields.get?, Fields.set, Fields.keys,
+      Fields.has, Ty.isOpt, EqEnv.eq, eW, pyEq, bind, Except.bind, pure, Except.pure, Ty.unionMembers,
+      mkUnionMembers, flattenUnion, handleType, hashStr, Ty.isStr]
   · intro ft hft hno; simp at hft; subst hft; simp [Ty.isOpt] at hno
-  · rintro ⟨_, h2, _⟩
-    have := h2 ("a", .null) (by simp) .int (by simp [Fields.get?_cons])
-    cases this
+  · rintro ⟨_, _, h3⟩
+    obtain ⟨kv, hkv, _⟩ := h3 ("a", .union [.opt .str, .int]) (by simp) rfl
+    simp at hkv
 
 /-- `==` is sound for pointer-free generator-stage types when no model lookup is available -/
 theorem pyEq_sound {acc : Accepts} {g : ModelLookup} {K : String → Prop} (e : EqEnv)
@@ -145,7 +166,79 @@ theorem mergeFieldSets_sound_false
   simp at hm'
   rcases hm' with rfl | rfl <;> simp
 
-/-- **C01.3 (partial: no field of an input set is a `DOptional`).**
+/-- "object `kvs` lies in field dict `fs`", lax reading of required fields: as `InhFields`, but a field may
+    also be absent when its type is a `DUnion` with a `DOptional` member (`Ty.optLike`;
+    `Union[Optional[str], int]` *is* `Optional[Union[str, int]]` for Python's `typing`, and `optimize_type`
+    rewrites it so). -/
+def InhFieldsLax (acc : Accepts) (g : ModelLookup) (fs : Fields) (kvs : List (String × Json)) : Prop :=
+  (∀ kv ∈ kvs, (Fields.get? fs kv.1).isSome = true) ∧
+  (∀ kv ∈ kvs, ∀ t, Fields.get? fs kv.1 = some t → Inh acc g t kv.2) ∧
+  (∀ ft ∈ fs, ft.2.optLike = false → ∃ kv ∈ kvs, kv.1 = ft.1)
+
+theorem inhFieldsLX_false_iff {acc g fs kvs} : InhFieldsLX false acc g fs kvs ↔ InhFieldsLax acc g fs kvs := by
+  simp [InhFieldsLX, InhFieldsLax, inhX_false_iff]
+
+/-- the strict reading implies the lax one -/
+theorem InhFields.toLax {acc g fs kvs} (h : InhFields acc g fs kvs) : InhFieldsLax acc g fs kvs :=
+  ⟨h.1, h.2.1, fun ft hft hno => h.2.2 ft hft (Ty.isOpt_false_of_optLike hno)⟩
+
+/-- the two readings agree on a field dict in which no field is a non-optional union with a `DOptional` member -/
+theorem InhFieldsLax.toStrict {acc g fs kvs} (hopt : ∀ f ∈ fs, f.2.optLike = true → f.2.isOpt = true)
+    (h : InhFieldsLax acc g fs kvs) : InhFields acc g fs kvs :=
+  inhFieldsX_false_iff.1 ((inhFieldsLX_false_iff.2 h).toStrict hopt)
+
+/-- **C01.3 (full).**  For field sets of generator-stage types — `DOptional` fields allowed, which is what
+    `ModelRegistry._merge` passes —: if an object lies in one of the field sets, it lies in the merged set:
+    every key of the object is a field of the merge, every value lies in the merged field's type, and every
+    field of the merge that is not optional-like is present.  The hypothesis and the conclusion use the lax
+    reading (`InhFieldsLax`), so the statement also covers input sets that contain
+    `Union[Optional[..], ..]` fields; `InhFields.toLax` gives the hypothesis from the strict reading.
+    Hypotheses: hash strings and `==` are sound on generator-stage types, the sets are such types. -/
+theorem mergeFieldSets_sound {acc : Accepts} {g : ModelLookup} {K : String → Prop} {c : LitCfg}
+    {e : EqEnv} {sets : List Fields} {F fs : Fields} {kvs : List (String × Json)}
+    (hs : HashSoundOn false acc g (Ty.Good K)) (he : EqSoundOn false acc g e (Ty.Good K))
+    (hgood : ∀ m ∈ sets, Ty.Good K (.obj m))
+    (h : mergeFieldSets c e sets = .ok F) (hfs : fs ∈ sets) (hi : InhFieldsLax acc g fs kvs) :
+    InhFieldsLax acc g F kvs := by
+  have hsets : ∀ m ∈ sets, ∀ f ∈ m, Ty.Good K f.2 := fun m hm f hf => (Ty.good_obj.1 (hgood m hm)).2 f hf
+  exact inhFieldsLX_false_iff.1
+    ((mergeFieldSets_spec_lax mergeClosed_good hs he hsets h).2.2 fs hfs kvs (inhFieldsLX_false_iff.2 hi))
+
+/-- **C01.3, strict conclusion** under a condition on the *result*: no merged field is a non-optional
+    `DUnion` with a `DOptional` member (as in `mergeFieldSets_witness`).  No restriction on the input sets. -/
+theorem mergeFieldSets_sound_strict {acc : Accepts} {g : ModelLookup} {K : String → Prop} {c : LitCfg}
+    {e : EqEnv} {sets : List Fields} {F fs : Fields} {kvs : List (String × Json)}
+    (hs : HashSoundOn false acc g (Ty.Good K)) (he : EqSoundOn false acc g e (Ty.Good K))
+    (hgood : ∀ m ∈ sets, Ty.Good K (.obj m))
+    (h : mergeFieldSets c e sets = .ok F) (hF : ∀ f ∈ F, f.2.optLike = true → f.2.isOpt = true)
+    (hfs : fs ∈ sets) (hi : InhFields acc g fs kvs) : InhFields acc g F kvs :=
+  (mergeFieldSets_sound hs he hgood h hfs hi.toLax).toStrict hF
+
+/-- the values part alone, with the strict hypothesis: every key of the object is a field of the merge and
+    its value lies in the merged field's type -/
+theorem mergeFieldSets_sound_values {acc : Accepts} {g : ModelLookup} {K : String → Prop} {c : LitCfg}
+    {e : EqEnv} {sets : List Fields} {F fs : Fields} {kvs : List (String × Json)}
+    (hs : HashSoundOn false acc g (Ty.Good K)) (he : EqSoundOn false acc g e (Ty.Good K))
+    (hgood : ∀ m ∈ sets, Ty.Good K (.obj m))
+    (h : mergeFieldSets c e sets = .ok F) (hfs : fs ∈ sets) (hi : InhFields acc g fs kvs) :
+    ∀ kv ∈ kvs, ∃ t, Fields.get? F kv.1 = some t ∧ Inh acc g t kv.2 := by
+  obtain ⟨h1, h2, _⟩ := mergeFieldSets_sound hs he hgood h hfs hi.toLax
+  intro kv hkv
+  cases hg : Fields.get? F kv.1 with
+  | none => have := h1 kv hkv; simp [hg] at this
+  | some t => exact ⟨t, rfl, h2 kv hkv t hg⟩
+
+/-- non-vacuity of `mergeFieldSets_sound` with `DOptional` fields in the input, on the witness above:
+    `{}` lies laxly in the merge `{a: Union[Optional[str], int]}` -/
+example (acc : Accepts) (g : ModelLookup) :
+    (∀ m ∈ [[("a", Ty.int)], [("a", Ty.opt .str)]], Ty.Good (fun _ => True) (.obj m)) ∧
+    InhFieldsLax acc g [("a", .union [.opt .str, .int])] [] := by
+  refine ⟨?_, by simp, by simp, ?_⟩
+  · intro m hm; simp at hm; rcases hm with rfl | rfl <;> simp
+  · intro ft hft hno; simp at hft; subst hft
+    simp [Ty.optLike, Ty.unionMembers, Ty.isOpt] at hno
+
+/-- **C01.3 (partial: no field of an input set is a `DOptional`; strict reading).**
     If an object lies in one of the field sets, it lies in the merged set.
     Hypotheses: hash strings and `==` are sound on generator-stage types, the sets are such types. -/
 theorem mergeFieldSets_sound_partial {acc : Accepts} {g : ModelLookup} {K : String → Prop} {c : LitCfg}
@@ -160,16 +253,23 @@ theorem mergeFieldSets_sound_partial {acc : Accepts} {g : ModelLookup} {K : Stri
   exact inhFieldsX_false_iff.1
     ((mergeFieldSets_spec mergeClosed_good hs he hsets h).2.2 fs hfs kvs (inhFieldsX_false_iff.2 hi))
 
+/-- the merged field dict is again a generator-stage type (input sets may contain `DOptional` fields) -/
+theorem mergeFieldSets_good_opt {acc : Accepts} {g : ModelLookup} {K : String → Prop} {c : LitCfg}
+    {e : EqEnv} {sets : List Fields} {F : Fields}
+    (hs : HashSoundOn false acc g (Ty.Good K)) (he : EqSoundOn false acc g e (Ty.Good K))
+    (hgood : ∀ m ∈ sets, Ty.Good K (.obj m))
+    (h : mergeFieldSets c e sets = .ok F) : Ty.Good K (.obj F) := by
+  have hsets : ∀ m ∈ sets, ∀ f ∈ m, Ty.Good K f.2 := fun m hm f hf => (Ty.good_obj.1 (hgood m hm)).2 f hf
+  obtain ⟨nd, hP, _⟩ := mergeFieldSets_spec_lax mergeClosed_good hs he hsets h
+  exact Ty.good_obj.2 ⟨nd, hP⟩
+
 /-- the merged field dict is again a generator-stage type -/
 theorem mergeFieldSets_good {acc : Accepts} {g : ModelLookup} {K : String → Prop} {c : LitCfg}
     {e : EqEnv} {sets : List Fields} {F : Fields}
     (hs : HashSoundOn false acc g (Ty.Good K)) (he : EqSoundOn false acc g e (Ty.Good K))
-    (hgood : ∀ m ∈ sets, Ty.Good K (.obj m)) (hnoopt : ∀ m ∈ sets, ∀ f ∈ m, f.2.isOpt = false)
-    (h : mergeFieldSets c e sets = .ok F) : Ty.Good K (.obj F) := by
-  have hsets : ∀ m ∈ sets, ∀ f ∈ m, Ty.Good K f.2 ∧ f.2.isOpt = false :=
-    fun m hm f hf => ⟨(Ty.good_obj.1 (hgood m hm)).2 f hf, hnoopt m hm f hf⟩
-  obtain ⟨nd, hP, _⟩ := mergeFieldSets_spec mergeClosed_good hs he hsets h
-  exact Ty.good_obj.2 ⟨nd, hP⟩
+    (hgood : ∀ m ∈ sets, Ty.Good K (.obj m)) (_hnoopt : ∀ m ∈ sets, ∀ f ∈ m, f.2.isOpt = false)
+    (h : mergeFieldSets c e sets = .ok F) : Ty.Good K (.obj F) :=
+  mergeFieldSets_good_opt hs he hgood h
 
 /-- non-vacuity of the structural hypotheses (a key missing from one set becomes optional) -/
 example : (∀ m ∈ [[("a", Ty.int), ("b", Ty.str)], [("a", Ty.float)]], Ty.Good (fun _ => True) (.obj m)) ∧
